@@ -1,5 +1,6 @@
 import Pyrtma.Model.Emit
 import Pyrtma.Model.Combined
+import Pyrtma.Model.Paths
 /-!
 # Spec for C04 / C15 / C16 — predicates over what the four back ends printed
 
